@@ -59,6 +59,10 @@ func (ssp *simpleSpanProcessor) Shutdown(ctx context.Context) error {
 	ssp.stopOnce.Do(func() {
 		stopFunc := func(exp SpanExporter) (<-chan error, func()) {
 			done := make(chan error, 1)
+			if exp == nil {
+				// Nothing to shut down for a processor without an exporter.
+				return done, func() { done <- nil }
+			}
 			return done, func() { done <- exp.Shutdown(ctx) }
 		}
 
